@@ -420,6 +420,7 @@ pub async fn read_ip_list(path: &str) -> Result<SmallVec<IpAddr, 4>> {
 /// harnesses. Compiled only with the `verif-hooks` feature; re-exports only, no
 /// behaviour.
 #[cfg(feature = "verif-hooks")]
+#[allow(unused_imports, dead_code)]
 pub mod verif_hooks {
     pub use super::connections::reconnect_uplink;
     pub use super::housekeeping::handle_housekeeping;
